@@ -74,6 +74,11 @@ func RunMonitor(a MonArgs) int {
 	os.RemoveAll(work)
 	os.MkdirAll(work, 0o755)
 	os.MkdirAll(filepath.Join(a.Root, "replays"), 0o755)
+	if old, _ := filepath.Glob(filepath.Join(a.Root, "replays", a.ID+"-"+a.Ctx.Tier+"-*.json")); a.Replay == "" {
+		for _, f := range old {
+			os.Remove(f)
+		}
+	}
 	os.MkdirAll(filepath.Join(a.Root, "evidence"), 0o755)
 
 	known := loadKnown(filepath.Join(a.Root, "known_findings.json"), a.ID)
@@ -258,7 +263,7 @@ func RunMonitor(a MonArgs) int {
 		raw, _ := json.MarshalIndent(rep, "", " ")
 		os.WriteFile(path, raw, 0o644)
 		fmt.Printf("VIOLATION property=%s replay=%s\n", a.ID, path)
-		fmt.Printf("  signature: %s (%d occurrences)\n  %s\n", s, len(evs), firstLines(e.Viol.Detail, 12))
+		fmt.Printf("  signature: %s (%d occurrences)\n  %s\n", s, len(evs), firstLines(e.Viol.Detail, 3))
 		violSummaries = append(violSummaries, map[string]any{"signature": s, "occurrences": len(evs), "replay": path})
 	}
 
@@ -347,6 +352,11 @@ func firstLines(s string, n int) string {
 	l := strings.Split(s, "\n")
 	if len(l) > n {
 		l = l[:n]
+	}
+	for i := range l {
+		if len(l[i]) > 220 {
+			l[i] = l[i][:220] + "…"
+		}
 	}
 	return strings.Join(l, "\n  ")
 }
